@@ -57,7 +57,8 @@ def convolution_histories(seed=0):
                 if any(not np.array_equal(a, b) for a, b in zip(kids, keep)):
                     problems.append("compute_log_S(children %s) modified one of its inputs" % idxs)
         # pairwise cache: symmetric, and equal arrays are not confused with a different pair
-        for i, j in ((0, 1), (1, 0), (0, 6), (0, 0), (0, 2), (2, 0)):
+        arrs.append(arrs[1].copy())  # a second pair of twins (7 = copy of 1): two different equal pairs must not share an entry
+        for i, j in ((0, 1), (1, 0), (0, 6), (0, 0), (0, 2), (2, 0), (1, 7), (7, 7), (6, 6), (3, 4), (5, 2)):
             calls += 1
             got = _convolve_two_children(arrs[i], arrs[j])
             want = _convolve_two_children.__wrapped__(arrs[i].copy(), arrs[j].copy())
